@@ -80,14 +80,13 @@ func newNestedFrom(rng *rand.Rand, lims [3]int) (*nestedCfg, error) {
 		return nil, fmt.Errorf("GetRoutablePrefixesFor(%s, %s) returned %d prefixes", ip, marker.Prefix, len(n.prefixes))
 	}
 	// A country prefix that is the FIRST of its region but not the whole region (BE fd13::/18 in fd13::/16, JP
-	// fd70::/17 ...) shares its base address with the region's routing prefix. On the tree as it is, Clean then trims the
-	// rest of the region to the OWN prefix's limit (it looks the limit up by RoutingPrefix.Addr(), and the buckets of the
-	// two prefixes are not kept apart by sortForCleaning) - a deviation from "within the limit after a cleanup" that this
-	// stage showed when it was written and that is reported, not listed. Such configurations keep the router's own
-	// numbers (1024 / 64 / 32), which the 24 addresses of the universe cannot reach; all other clauses and the reader
-	// calls are judged on them as everywhere.
+	// fd70::/17 ...) shares its base address with the region's routing prefix. Until the fix recorded in
+	// known_findings.json (C11, nested/clean/first-of-region) Clean trimmed the rest of the region to the OWN prefix's
+	// limit (it looked the limit up by RoutingPrefix.Addr(), and the buckets of the two prefixes were not kept apart by
+	// sortForCleaning): this stage showed it as soon as configurations were derived from router addresses. Such
+	// configurations get the small limits like all others.
 	n.firstOfRegion = marker.Prefix.Bits() > m.RegionPrefixBits && marker.Prefix.Addr() == netip.PrefixFrom(marker.Prefix.Addr(), m.RegionPrefixBits).Masked().Addr()
-	if lims[0] > 0 && !n.firstOfRegion {
+	if lims[0] > 0 {
 		for i := range n.prefixes {
 			switch rp := &n.prefixes[i]; {
 			case rp.BasePrefix == marker.Prefix:
@@ -334,7 +333,6 @@ func nestedStage(c *vf.Ctx) {
 			nderived++
 			if n.firstOfRegion {
 				nfirst++
-				lims = [3]int{}
 			}
 		}
 		withReaders := k%3 != 0 && len(readers.names) > 0
